@@ -309,9 +309,10 @@ NAN, INF, NINF = Sp("nan"), Sp("inf"), Sp("-inf")
 # symbolic reals: value = n / d, the path condition always entails d > 0
 # ---------------------------------------------------------------------------------------------
 class R:
-    __slots__ = ("n", "d")
+    __slots__ = ("n", "d", "root")  # root: an R whose square is this value (perfect-square tracking), or None
 
-    def __init__(self, n, d=1):
+    def __init__(self, n, d=1, root=None):
+        self.root = root
         if isinstance(n, R):
             n, d = n.n, n.d
         elif isinstance(n, bool):
@@ -397,7 +398,16 @@ class R:
         if isinstance(o, Sp):
             return o * self
         o = lift(o)
-        return R(_mul(self.n, o.n), _mul(self.d, o.d))
+        root = None
+        if o is self or (_same(self.n, o.n) and _same(self.d, o.d)):
+            root = self
+        elif self.root is not None and o.root is not None:
+            root = self.root * o.root
+        elif self.root is not None and o.conc and o.frac() >= 0:
+            root = _conc_sqrt_mul(self.root, o.frac())
+        elif o.root is not None and self.conc and self.frac() >= 0:
+            root = _conc_sqrt_mul(o.root, self.frac())
+        return R(_mul(self.n, o.n), _mul(self.d, o.d), root)
 
     __rmul__ = __mul__
 
@@ -411,10 +421,14 @@ class R:
             if o.n == 0:
                 return self._div0()
             if o.n > 0:
-                return R(_mul(self.n, o.d), _mul(self.d, o.n))
+                root = _conc_sqrt_mul(self.root, 1 / o.frac()) if (self.root is not None and o.conc) else None
+                return R(_mul(self.n, o.d), _mul(self.d, o.n), root)
             return R(_mul(_neg(self.n), o.d), _mul(self.d, -o.n))
         if B(_zc(o.n) > 0):
-            return R(_mul(self.n, o.d), _mul(self.d, o.n))
+            root = None
+            if self.root is not None and o.root is not None:
+                root = self.root / o.root
+            return R(_mul(self.n, o.d), _mul(self.d, o.n), root)
         if B(_zc(o.n) < 0):
             return R(_mul(_neg(self.n), o.d), _mul(self.d, _neg(o.n)))
         return self._div0()
@@ -506,6 +520,8 @@ class R:
 
     # --- transcendental-ish, via fresh existentials
     def sqrt(self):
+        if self.root is not None and not self.conc:
+            return self.root.abs()
         if self.conc:
             f = self.frac()
             if f < 0:
@@ -518,6 +534,11 @@ class R:
         else:
             if bool(self < 0):
                 return NAN
+        # harness-provided candidates (checked by the solver, hence sound): sqrt(x) = c if x == c*c and c >= 0
+        for c in SPACE.sqrt_candidates:
+            f = z3.And(self.eqz(c * c), c.lez(0) == False) if False else z3.And(self.eqz(c * c), (c >= 0).z())
+            if SPACE.check(z3.Not(f), timeout_ms=2000) == "unsat":
+                return c
         # sqrt(n/d) = sqrt(n*d)/d
         nd = _mul(self.n, self.d)
         key = ("sqrt", _key(nd))
@@ -553,6 +574,16 @@ class R:
         if self.conc:
             return f"R({self.frac()})"
         return f"R({self.n}/{self.d})" if not (_isc(self.d) and self.d == 1) else f"R({self.n})"
+
+
+def _conc_sqrt_mul(root, f):
+    """root * sqrt(f) when f is a perfect rational square, else None"""
+    import math
+    f = Fraction(f)
+    a, b = math.isqrt(f.numerator), math.isqrt(f.denominator)
+    if a * a == f.numerator and b * b == f.denominator:
+        return root * Fraction(a, b)
+    return None
 
 
 def _key(t):
@@ -592,6 +623,35 @@ def zterm(x):
 # ---------------------------------------------------------------------------------------------
 # the search space
 # ---------------------------------------------------------------------------------------------
+_LIN_CACHE = {}
+
+
+def _is_linear(f):
+    """syntactic linearity of a z3 formula (no product of two non-numerals, no division by a non-numeral)."""
+    k = f.get_id()
+    r = _LIN_CACHE.get(k)
+    if r is not None:
+        return r
+    r = True
+    if z3.is_app(f):
+        kind = f.decl().kind()
+        ch = f.children()
+        if kind == z3.Z3_OP_MUL:
+            if sum(0 if z3.is_rational_value(c) else 1 for c in ch) > 1:
+                r = False
+        elif kind in (z3.Z3_OP_DIV, z3.Z3_OP_POWER):
+            if not z3.is_rational_value(ch[1]):
+                r = False
+            elif kind == z3.Z3_OP_POWER:
+                r = False
+        if r:
+            r = all(_is_linear(c) for c in ch)
+    _LIN_CACHE[k] = r
+    if len(_LIN_CACHE) > 200000:
+        _LIN_CACHE.clear()
+    return r
+
+
 class Space:
     def __init__(self, timeout_ms=10000, prefix=()):
         self.timeout_ms = timeout_ms
@@ -608,42 +668,44 @@ class Space:
         self.choices = []  # concrete choice values taken on the current path (for reporting)
         self.last_model = None
         self.notes = {}
+        self.branch_timeout_ms = min(timeout_ms, 3000)
+        self.sqrt_candidates = []
+        self.n_branch_unknown = 0
 
     # --- solver
-    def check(self, *extra, want_model=False):
-        self.nq += 1
-        t = time.time()
-        s = z3.SolverFor("QF_NRA")
-        s.set("timeout", self.timeout_ms)
-        for a in self.pc:
+    def _solve(self, logic, assertions, timeout_ms):
+        s = z3.SolverFor(logic) if logic else z3.Solver()
+        s.set("timeout", int(timeout_ms))
+        for a in assertions:
             s.add(a)
-        for e in extra:
-            s.add(e)
+        t = time.time()
         r = s.check()
         self.t_solver += time.time() - t
+        return r, s
+
+    def check(self, *extra, timeout_ms=None):
+        """Decide pc /\ extra.  Returns 'sat' | 'unsat' | 'unknown'.
+        A cheap pass over the *linear* part of the path condition is tried first (sound for unsat)."""
+        self.nq += 1
+        timeout_ms = timeout_ms or self.timeout_ms
+        extra = list(extra)
+        lin = [a for a in self.pc if _is_linear(a)]
+        if len(lin) < len(self.pc) or not all(_is_linear(e) for e in extra):
+            lin_extra = [e for e in extra if _is_linear(e)]
+            if lin_extra or not extra:
+                r, _ = self._solve("QF_LRA", lin + lin_extra, 2000)
+                if r == z3.unsat:
+                    self.n_unsat += 1
+                    return "unsat"
+        r, s = self._solve("QF_NRA", self.pc + extra, timeout_ms)
+        if r == z3.unknown:
+            r, s = self._solve(None, self.pc + extra, timeout_ms)
         if r == z3.unsat:
             self.n_unsat += 1
             return "unsat"
         if r == z3.sat:
             self.n_sat += 1
             self.last_model = s.model()
-            return "sat"
-        # second chance with the default tactic (sometimes succeeds where nlsat front-end gives up)
-        t = time.time()
-        s2 = z3.Solver()
-        s2.set("timeout", self.timeout_ms)
-        for a in self.pc:
-            s2.add(a)
-        for e in extra:
-            s2.add(e)
-        r2 = s2.check()
-        self.t_solver += time.time() - t
-        if r2 == z3.unsat:
-            self.n_unsat += 1
-            return "unsat"
-        if r2 == z3.sat:
-            self.n_sat += 1
-            self.last_model = s2.model()
             return "sat"
         self.n_unknown += 1
         return "unknown"
@@ -672,27 +734,29 @@ class Space:
 
     # --- forking
     def branch(self, cond):
-        cond = z3.simplify(cond)
-        if z3.is_true(cond):
+        simp = z3.simplify(cond)
+        if z3.is_true(simp):
             return True
-        if z3.is_false(cond):
+        if z3.is_false(simp):
             return False
         if self.pos < len(self.trail):
             ent = self.trail[self.pos]
             assert ent[0] == "b", "non-deterministic harness (bool/choice mismatch)"
             val = ent[1]
         else:
-            rt = self.check(cond)
-            rf = self.check(z3.Not(cond)) if rt != "unknown" else "unknown"
+            bt = self.branch_timeout_ms
+            rf = self.check(z3.Not(cond), timeout_ms=bt)
+            rt = "sat" if rf == "unsat" else self.check(cond, timeout_ms=bt)  # pc is kept feasible: one side must be
             if rt == "unknown" or rf == "unknown":
-                raise Inconclusive(f"branch feasibility unknown: {cond}")
-            if rt == "sat" and rf == "sat":
+                self.n_branch_unknown += 1  # explored as feasible (over-approximation, sound for 'holds' verdicts)
+            t_ok, f_ok = rt != "unsat", rf != "unsat"
+            if t_ok and f_ok:
                 val = True
                 self.trail.append(["b", True, 1])
-            elif rt == "sat":
+            elif t_ok:
                 val = True
                 self.trail.append(["b", True, 0])
-            elif rf == "sat":
+            elif f_ok:
                 val = False
                 self.trail.append(["b", False, 0])
             else:
@@ -746,6 +810,7 @@ class Space:
         self.memo = {}
         self.choices = []
         self.notes = {}
+        self.sqrt_candidates = []
 
 
 SPACE: Space | None = None
@@ -882,7 +947,7 @@ def explore(fn, timeout_ms=10000, prefix=(), max_paths=200000, sample_every=0, b
             break
         if not sp.next_path():
             break
-    st.update(queries=sp.nq, unsat=sp.n_unsat, sat=sp.n_sat, n_unknown=sp.n_unknown,
+    st.update(queries=sp.nq, unsat=sp.n_unsat, sat=sp.n_sat, n_unknown=sp.n_unknown, branch_unknown=sp.n_branch_unknown,
               solver_s=round(sp.t_solver, 3), wall_s=round(time.time() - t0, 3))
     return st
 
